@@ -6,7 +6,7 @@ from .. import graph_hist as H
 from .. import histprops as HP
 
 LEVEL = 'proof'
-NEEDS = ['Base', 'Names', 'NamesProofs', 'Graph', 'GraphObs', 'GraphTS', 'GraphInv', 'GraphLemmas', 'GraphInvProofs', 'Spec', 'SpecProofs']
+NEEDS = ['SFMutators', 'Extracted', 'SourceFacts', 'Base', 'Names', 'NamesProofs', 'Graph', 'GraphObs', 'GraphTS', 'GraphInv', 'GraphLemmas', 'GraphInvProofs', 'Spec', 'SpecProofs']
 
 
 def consistent(g, kind, op, code, before, after, ctx):
@@ -58,9 +58,25 @@ def consistent(g, kind, op, code, before, after, ctx):
     return None
 
 
+_mix = [0]
+
+
+def mixed_gen(rng, kind):
+    """mostly the uniform generator; every third history is cycle-seeking (C02's generator) or error-seeking (C03's), so that
+    the rejection paths of the reference model (cycle closed through a retyped / replaced edge, ...) are compared too"""
+    from .c02 import CloseGen
+    from .c03 import ErrGen
+    _mix[0] += 1
+    if _mix[0] % 6 == 4:
+        return CloseGen(rng, kind)
+    if _mix[0] % 6 == 5:
+        return ErrGen(rng, kind)
+    return H.Gen(rng, kind)
+
+
 def check(run, tier, seed):
     HP.history_property(run, tier, seed, pid='C01', oracle=consistent, divergence_is_violation=True,
-                        n_quick=240, n_thorough=4000,
+                        n_quick=240, n_thorough=4000, gen_factory=mixed_gen,
                         describe='Random histories of all public mutators (all argument forms, all six edge types, both classes, '
                                  'lags of both signs) plus exhaustive short histories over a 3-name alphabet.')
 
